@@ -33,9 +33,15 @@ FirstError(rec, sel) ==       \* most specific first; among equals the one that 
   CHOOSE i \in F : \A j \in F : Rank(rec.handlers[i].outcome) < Rank(rec.handlers[j].outcome)
                                \/ (Rank(rec.handlers[i].outcome) = Rank(rec.handlers[j].outcome) /\ i <= j)
 
-RECURSIVE MergeAll(_, _, _)
-MergeAll(doc, rec, idx) == IF idx = <<>> THEN doc
-  ELSE LET h == rec.handlers[Head(idx)] IN MergeAll(IF IsNull(h.instr) THEN doc ELSE MergePatch(doc, h.instr), rec, Tail(idx))
+\* The handlers of one review write into ONE merge-patch document (the `patch` kwarg): a later handler's key overwrites an
+\* earlier one's, mappings are descended into. The accumulated document is then merged into the reviewed object once.
+RECURSIVE Acc(_, _)
+Acc(p, q) == IF ~(IsD(p) /\ IsD(q)) THEN q
+             ELSE D([k \in Keys(p) \cup Keys(q) |-> IF k \notin Keys(q) THEN p.v[k] ELSE IF k \notin Keys(p) THEN q.v[k] ELSE Acc(p.v[k], q.v[k])])
+RECURSIVE AccAll(_, _, _)
+AccAll(acc, rec, idx) == IF idx = <<>> THEN acc
+  ELSE LET h == rec.handlers[Head(idx)] IN AccAll(IF IsNull(h.instr) THEN acc ELSE Acc(acc, h.instr), rec, Tail(idx))
+MergeAll(doc, rec, idx) == MergePatch(doc, AccAll(EmptyD, rec, idx))
 
 FinsOf(doc) == LET f == Get(doc, <<"metadata", "finalizers">>) IN IF IsL(f) THEN f.v ELSE <<>>
 AddFin(doc) == IF \E i \in DOMAIN FinsOf(doc) : JEq(FinsOf(doc)[i], S("fin/x")) THEN doc
